@@ -63,6 +63,7 @@ ASSUMPTIONS = [
     'instances of one affinity share their limits (as in the statement of C04)',
     'Bucket aggregates only prune (Buckets.tla / C02); the cycle model scans leaf servers',
     'exceptions raised by the code under test inside a step are counted as skipped lines, not judged',
+    'L2 source: the real Master/loader on an in-memory ZooKeeper drive the same Cell; only reschedule() cycles are judged there, with the previous recorded state as pre-state',
 ]
 
 
@@ -113,17 +114,43 @@ def _gen(ctx, prop):
     return out
 
 
+L2_PROPS = {'C01': 40, 'C03': 30, 'C05': 30, 'C08': 30, 'C06': 15, 'C07': 15}
+
+
+def _l2_traces(ctx, prop, histories=None):
+    """Master-level (L2) executions judged by the same scheduler clauses: the
+    real Master/loader drive the Cell (reload_server, restore_placement,
+    loader.resources with spelled quantities, presence-driven state changes)."""
+    if prop not in L2_PROPS and histories is None:
+        return []
+    from . import master_common as mcm, master_l2
+    rng = random.Random(ctx.seed * 31337 + 7)
+    if histories is None:
+        n = L2_PROPS[prop] * (1 if ctx.quick else 12)
+        histories = [mcm.gen_random(mcm.SCENARIOS['base'], rng, rng.choice([8, 12, 16]))
+                     for _ in range(n)]
+    out = []
+    for t in mcm.record('base', histories):
+        for seg in master_l2.sched_segments('l2-' + t['tid'], t['lines']):
+            seg['history'] = t['history']
+            seg['src'] = 'l2'
+            out.append(seg)
+    return out
+
+
 def run(ctx, prop):
-    cex = list(_mc(ctx, prop))
-    if prop == 'C02':
-        res = tlc.mc(sc.SPEC_DIR, 'MC_Buckets', 'MC_Buckets.cfg', coverage=True,
-                     extra_cfg_text='CONSTANT MaxOps = %d' % (5 if ctx.quick else 6),
-                     timeout=200 if ctx.quick else 900)
-        ctx.add_mc('Buckets.tla pruning soundness', res,
-                   need_actions=['AddServer', 'RemoveServer', 'SetNotUp', 'Put', 'Remove'])
-        if res['violated']:
-            ctx.log('Buckets.tla: Sound violated in the MODEL (design level); see trace clause C02.prune for the code')
-    hist = [(s, 'cex', h + [('Cycle', [])]) for s, h in cex] + _gen(ctx, prop)
+    import concurrent.futures
+    with concurrent.futures.ThreadPoolExecutor(4) as ex:
+        f_mc = ex.submit(lambda: list(_mc(ctx, prop)))
+        f_bk = ex.submit(_buckets, ctx) if prop == 'C02' else None
+        f_gen = ex.submit(_gen, ctx, prop)
+        f_l2 = ex.submit(_l2_traces, ctx, prop)
+        cex = f_mc.result()
+        if f_bk:
+            f_bk.result()
+        gen = f_gen.result()
+        l2 = f_l2.result()
+    hist = [(s, 'cex', h + [('Cycle', [])]) for s, h in cex] + gen
     if CONF[prop].get('probe'):
         rng = random.Random(ctx.seed * 9973)
         hist = [(s, src, sc.probeify(h, rng, sc.SCENARIOS[s])) for s, src, h in hist]
@@ -137,6 +164,7 @@ def run(ctx, prop):
         for (src, _), t in zip(hs, recs):
             t['src'] = src
         traces.extend(recs)
+    traces += l2
     ctx.log('recorded %d traces, %d lines' % (len(traces), sum(len(t['lines']) for t in traces)))
     verdicts, stats = sc.validate(traces, timeout=600 if ctx.quick else 3000)
     ctx.cmds.append(stats['cmd'])
@@ -144,6 +172,16 @@ def run(ctx, prop):
     if len(verdicts) != total:
         raise tlc.MachineryError('trace spec judged %d of %d lines' % (len(verdicts), total))
     return judge(ctx, prop, traces, verdicts)
+
+
+def _buckets(ctx):
+    res = tlc.mc(sc.SPEC_DIR, 'MC_Buckets', 'MC_Buckets.cfg', coverage=True, workers=4,
+                 extra_cfg_text='CONSTANT MaxOps = %d' % (5 if ctx.quick else 6),
+                 timeout=200 if ctx.quick else 900)
+    ctx.add_mc('Buckets.tla pruning soundness', res,
+               need_actions=['AddServer', 'RemoveServer', 'SetNotUp', 'Put', 'Remove'])
+    if res['violated']:
+        ctx.log('Buckets.tla: Sound violated in the MODEL (design level); see trace clause C02.prune for the code')
 
 
 def judge(ctx, prop, traces, verdicts):
@@ -168,7 +206,8 @@ def judge(ctx, prop, traces, verdicts):
                 violations.append(dict(
                     clause=f, signature=f,
                     what='after %s at step %d of %s' % (line['ev'], v['i'], t['tid']),
-                    replay_payload=dict(kind='sched_l1', property=prop, clause=f,
+                    replay_payload=dict(kind='sched_l2' if t.get('src') == 'l2' else 'sched_l1',
+                                        property=prop, clause=f,
                                         scenario=t['tid'].split(':')[0],
                                         history=t['history'][:line.get('h', v['i'])], failed_step=v['i'])))
     samples = []
@@ -197,6 +236,10 @@ def replay(ctx, prop, path):
     h = [tuple(x) for x in payload['history']]
     if not h or h[-1][0] != 'Cycle':
         h.append(('Cycle', []))
+    if payload.get('kind') == 'sched_l2':
+        traces = _l2_traces(ctx, prop, [h])
+        verdicts, _ = sc.validate(traces)
+        return judge(ctx, prop, traces, verdicts)
     traces = sc.record(payload['scenario'], [h])
     verdicts, _ = sc.validate(traces)
     return judge(ctx, prop, traces, verdicts)
